@@ -252,6 +252,19 @@ def c20_d(ctx: Ctx):
         if canon(b.value) != DEST:
             out.append(ctx.viol(R, f, b, f"the recorded version is {canon(b.value)}, not the destination of the step"))
     cfgnames = {canon(t.value) for b in bumps for t in b.targets if isinstance(t, ast.Subscript)}
+    locks = [c for c in body_nodes(f) if isinstance(c, ast.Call) and (dotted(c.func) or "").split(".")[-1] in ("FileLock", "SoftFileLock")]
+    unl = [c for c in body_nodes(f) if isinstance(c, ast.Call) and common.ext_name(ctx, f, c) in ("os.unlink", "os.remove") and "lock" in canon(c).lower()]
+    for lk in locks:
+        to = kwarg(lk, "timeout") or (lk.args[1] if len(lk.args) > 1 else None)
+        tv = ctx.fold(to, f) if to is not None else -1
+        kt = MIG + ":apply_migrations|lock-no-timeout"
+        if isinstance(tv, (int, float)) and tv >= 0 and unl:
+            out.append(ctx.viol(R, f, lk, f"the migration lock is acquired with timeout={tv!r} while the `finally` removes the lock file unconditionally: a caller that times out behind a running "
+                                "migration deletes the lock file that migration still holds, the next caller acquires a fresh lock and a second migration runs concurrently", construct=kt))
+        elif tv == -1 or not unl:
+            out.append(ctx.ok(R, f, lk, "the migration lock blocks until it is acquired (no timeout), so the lock file is only removed by a caller that held the lock", construct=kt))
+        else:
+            out.append(ctx.inc(R, f, lk, f"lock timeout {canon(to)} not a constant", construct=kt))
     wr = [c for c in body_nodes(f) if isinstance(c, ast.Call) and isinstance(c.func, ast.Attribute) and c.func.attr == "write" and canon(c.func.value) in cfgnames]
     if wr:
         out.append(ctx.ok(R, f, wr[0], "the bumped configuration is written"))
